@@ -1,5 +1,6 @@
 import Adsb.Gen.VelFn
 import Adsb.Theorems.C07b
+import Adsb.Lemmas.Paths
 /-! # C07 (part 3) — `AirborneVelocity::calculate` as the source text has it today
 
 `Gen/VelFn.lean` is written by `tools/rust2lean.py` from `adsb.rs` / `lib.rs` on every run: the i16 / u16 arithmetic of `calculate`
@@ -43,6 +44,22 @@ theorem src_calculate_int (v : Vel) (a b c d : Nat) (hs : v.sub = .ground a b c 
       rw [hcast]
       by_cases hst : v.st = 2 <;> rcases ha' with rfl | rfl <;> rcases hc' with rfl | rfl <;> rcases hs' with e | e <;>
         simp [hst, e, Gen.signValueSrc, signOf, i16out] <;> omega
+
+/-- **… for every decoded frame**: the velocity payload of any buffer (`velAt`, what `Frame.decode` returns for type code 19) meets the
+width hypotheses of `src_calculate_int`, so for everything the decoder can hand to `calculate` no check fires and the result is the model's -/
+theorem src_calculate_decoded (B : Buf) (a b c d : Nat) (hs : (velAt B).sub = .ground a b c d) :
+    Gen.calcIntSrc (velAt B).st a b c d (velAt B).vrateSign (velAt B).vrate = (false, (velAt B).calc.map (fun r => (r.vEw, r.vNs, r.vrate))) := by
+  have hsub : velSubAt B (bitsAt B 37 3) 45 = .ground a b c d := hs
+  unfold velSubAt at hsub
+  have h1 := bitsAt_lt B 45 1; have h2 := bitsAt_lt B (45 + 1) 10; have h3 := bitsAt_lt B (45 + 11) 1; have h4 := bitsAt_lt B (45 + 12) 10
+  have h5 := bitsAt_lt B 68 1; have h6 := bitsAt_lt B 69 9
+  split at hsub
+  · cases hsub
+  · split at hsub
+    · injection hsub with e1 e2 e3 e4
+      subst e1 e2 e3 e4
+      exact src_calculate_int (velAt B) _ _ _ _ hs (by omega) (by omega) (by omega) (by omega) (by simp only [velAt]; omega) (by simp only [velAt]; omega)
+    · split at hsub <;> cases hsub
 
 /-- the track-angle expression of the source is the model's, whatever the number type -/
 theorem src_heading_eq {α : Type} (T : TrackOps α) (v : Velocity) : Gen.headingSrc T v.vEw v.vNs = headingG T v := rfl
